@@ -111,6 +111,9 @@ _T0 = [
     1583020800,  # 2020-03-01
     1614470400,  # 2021-02-28
     0,
+    1615701600,  # 2021-03-14T06:00Z: one hour before daylight saving starts in America/New_York
+    1636261200,  # 2021-11-07T05:00Z: one hour before it ends
+    1615701600 - 86400,
 ]
 STEPS = [1, 2, 7, 60, 900, 3600, 86400, 90000]
 
